@@ -446,4 +446,20 @@ theorem completed_result {W : World Node VH V} {ps : PageSet Node} {r : Req Node
   | fetchingLeaf dels it needed => rw [hs] at hres; cases hres
   | fetchingLeaves page range it needed coll => rw [hs] at hres; cases hres
 
+/-! ### reading a mapped change list -/
+
+theorem wsLookup_eq_kvGet {A : Type} (ws : List (Key × Option A)) (k : Key) : wsLookup ws k = kvGet ws k := by
+  induction ws with
+  | nil => rfl
+  | cons x xs ih => obtain ⟨k', w⟩ := x; simp only [wsLookup, kvGet, ih]
+
+theorem wsLookup_map {A B : Type} (f : A → B) (ws : List (Key × Option A)) (k : Key) :
+    wsLookup (ws.map (fun e => (e.1, e.2.map f))) k = (wsLookup ws k).map (Option.map f) := by
+  induction ws with
+  | nil => rfl
+  | cons x xs ih =>
+    obtain ⟨k', w⟩ := x
+    simp only [List.map_cons, wsLookup, ih]
+    split <;> rfl
+
 end Nomt.Seek
